@@ -389,8 +389,9 @@ func cacheModel(fresh map[int]bool) porcupine.Model {
 				delete(m, i.K)
 				return o.Loaded == had && (!had || o.ID == old), dump(m)
 			case "SweepRemove":
-				// the sweep removed the entry under key K: legal only if nothing unexpired is mapped there
-				if live {
+				// the sweep removed element ID from key K (its on-expire ran): legal only if that very element is
+				// mapped there at this instant - an entry leaves the cache once - and it is not unexpired
+				if live || !had || old != i.ID {
 					return false, state
 				}
 				delete(m, i.K)
@@ -668,6 +669,18 @@ func main() {
 				for _, c1 := range red {
 					p := program{Init: inits[0], Threads: [][]in{{mkOp(a1, "a", 11), mkOp("Load", "a", 0)}, {mkOp(b1, "a", 21), mkOp("Load", "a", 0)}, {mkOp(c1, "a", 31), mkOp("LoadOrStore", "a", 32)}}}
 					scs = append(scs, mapScenario(p, mcx.Bounds{Preempt: 5, Env: -1, Select: -1}))
+				}
+			}
+		}
+	}
+	// (5) whole-map operations against a writer that performs two ordered operations on different keys: the
+	// snapshot / count / drain must be the map's content at one instant
+	for _, w := range []string{"CopyData", "LoadAndDeleteAll", "Range2", "Length"} {
+		for _, w1 := range []string{"Store", "Delete", "LoadOrStore", "LoadAndDelete"} {
+			for _, w2 := range []string{"Store", "Delete", "LoadOrStore", "LoadAndDelete"} {
+				for _, init := range inits {
+					p := program{Init: init, Threads: [][]in{{mkOp(w, "a", 0)}, {mkOp(w1, "a", 11), mkOp(w2, "b", 12)}}}
+					scs = append(scs, mapScenario(p, unb))
 				}
 			}
 		}
